@@ -12,7 +12,11 @@ nothing a visible snapshot needs is lost and nothing a running backup relies on 
 the hypothesis — by induction over step lists with the invariant `Inv` (Lemmas/Interleave.lean: I1 snapshots, I2 relied
 keys, I3 plans delete only what was marked keep-delete before, I4 own packs), every one of the nine step kinds
 preserving it (`step_preserves_Inv`).  `next_prune_recovers`: from every such state the follow-up prune makes every
-snapshot readable through a fresh index load.  The duration hypothesis is a guard of the model (`backupFinish` is only
+snapshot readable through a fresh index load — at any later time (`next_prune_recovers_however_late`), because Recover tests
+the USE of a marked pack, never the age of its mark (`needed_marked_pack_recovered_whatever_its_age`: any state, no hypothesis on
+times), and because every prune in between that keeps a pack marked keeps its mark time and its blob list
+(`kept_marked_packs_keep_their_blobs`; composition over two prunes: `backup_over_two_prunes_recovered`; on the protocol model
+with index files: `rewritten_index_listing_blobs_keeps_available`, negative witness `rewrite_dropping_blobs_loses`).  The duration hypothesis is a guard of the model (`backupFinish` is only
 enabled while `now + span < t0 + keep_delete`) and is used in exactly one lemma (`doomed_listed_absurd`, the timing
 core).  `span` bounds the time from a prune's plan — whose time its marks carry — to the moment its rebuilt index takes
 effect; `span = 0` is the property's literal hypothesis (`overlap_no_loss_literal`: holds for a prune that stamps its
@@ -21,6 +25,7 @@ that the literal hypothesis is not sufficient for the real code stays: `slow_pru
 by `c10 slowprune`).  Backup ∥ backup: any interleaving of two step-wise safe write sequences is safe.
 -/
 import Rustic.Model.Interleave
+import Rustic.Model.Prune
 import Rustic.Lemmas.Interleave
 import Rustic.Lemmas.Repo
 namespace Rustic.Props.C10
@@ -104,6 +109,123 @@ recovered — C02's decision table) makes every key of every visible snapshot re
 theorem next_prune_recovers (s0 s : St) (steps : List Step) (h0 : Inv s0) (hr : run s0 steps = some s) :
     allVisible (followupPrune s) = true := inv_followup (inv_run steps h0 hr)
 
+/-- **Recover does not depend on the age of the mark** (prune.rs `decide_packs`: the arm `(true, 1.., _)` — marked, at least one
+used blob — is `Recover` without looking at `pack.time`; only the arm `(true, 0, _)` tests `time + keep_delete ≤ plan time`).
+In ANY state — no invariant, no reachability, no relation between `t`, `keep_delete` and `now` is assumed, so in particular
+for `t + keep_delete ≤ now` — a stored pack marked at `t` that holds a key of a visible snapshot comes out of the follow-up
+prune unmarked, with its blob list, and the key is readable through a fresh index load. -/
+theorem needed_marked_pack_recovered_whatever_its_age (s : St) (p : PackSt) (t : Int) (c : List Key) (k : Key)
+    (hp : p ∈ s.packs) (hm : p.status = .marked t) (hst : p.stored = true) (hc : c ∈ s.snaps) (hk : k ∈ c) (hb : k ∈ p.blobs) :
+    { p with status := .unmarked } ∈ (followupPrune s).packs ∧ visible (followupPrune s) k = true := by
+  have h := followup_recovers_marked hp hm hc hk hb
+  refine ⟨h, ?_⟩
+  simp only [visible, List.any_eq_true, Bool.and_eq_true, beq_iff_eq, List.contains_iff_mem]
+  exact ⟨_, h, ⟨hst, rfl⟩, hb⟩
+
+open Rustic.Prune in
+/-- **the order of the tests in `followupPrune` is the decision table's** (C02's model `decideOne` of `decide_packs`, which is
+compared with the real planner on every C02 run): for a MARKED pack the decision is `recover` as soon as one blob is used —
+whatever `p.time`, `o.now`, `o.keepDelete` — and only for a pack with no used blob the age of the mark decides between `delete`
+(`t + keep_delete ≤ now`) and `keepMarked`. -/
+theorem marked_pack_decision_tests_use_before_age (kc : Consts) (o : Opts) (p : PPack) (pi : PackInfo) (hm : p.mark = true) :
+    (decideOne kc o p pi).1 =
+      if pi.usedBlobs ≠ 0 then .recover
+      else match p.time with
+        | some t => if t + o.keepDelete ≤ o.now then .delete else .keepMarked
+        | none => .keepMarkedAndCorrect := by
+  unfold decideOne
+  simp only [hm]
+  cases hu : pi.usedBlobs with
+  | succ n => simp
+  | zero =>
+    simp only [ne_eq, not_true_eq_false, if_false]
+    cases p.time with
+    | none => rfl
+    | some t =>
+      simp only []
+      by_cases h : t + o.keepDelete ≤ o.now
+      · have : o.now - o.keepDelete ≥ t := by omega
+        simp [h, this]
+      · have : ¬ (o.now - o.keepDelete ≥ t) := by omega
+        simp [h, this]
+/-- the same with the old mark spelled out: when `t + keep_delete ≤ now`, what the follow-up prune does to the pack is decided
+by use alone — used: recovered; used by no snapshot: removed. -/
+theorem old_mark_is_executed_only_for_unneeded_packs (s : St) (p : PackSt) (t : Int) (hp : p ∈ s.packs)
+    (hm : p.status = .marked t) (hold : t + s.keepDelete ≤ s.now) :
+    (if (s.snaps.any fun c => c.any fun k => p.blobs.contains k) then { p with status := .unmarked }
+     else { p with status := .unlisted, stored := false }) ∈ (followupPrune s).packs := by
+  split
+  · rename_i hu
+    simp only [List.any_eq_true, List.contains_iff_mem] at hu
+    obtain ⟨c, hc, k, hk, hb⟩ := hu
+    exact followup_recovers_marked hp hm hc hk hb
+  · rename_i hu
+    exact followup_deletes_old_unused hp hm (by simpa using hu) hold
+
+/-- `next_prune_recovers` with the time of the follow-up prune explicit: in every reachable state, a follow-up prune running ANY
+time `d` later (one hour, or keep-delete + one hour after the marking prune, or years) makes every snapshot readable. -/
+theorem next_prune_recovers_however_late (s0 s : St) (steps : List Step) (d : Nat) (h0 : Inv s0) (hr : run s0 steps = some s) :
+    allVisible (followupPrune { s with now := s.now + d }) = true := inv_followup (inv_tick (inv_run steps h0 hr) d)
+
+/-- **A prune that keeps a pack marked keeps its blob list** (prune.rs `prune_repository`: `KeepMarked` packs are written to the
+rebuilt index with `into_index_pack` — id, size, time AND blobs): a pack marked at `t` that prune `j` does not delete is,
+after `j`'s index rewrite, the very same entry — same mark time, same blobs. -/
+theorem kept_marked_packs_keep_their_blobs (s s' : St) (j : Nat) (pr : Prune) (hpr : s.prunes[j]? = some pr)
+    (h : step s (.pruneRewrite j) = some s') (p : PackSt) (t : Int) (hp : p ∈ s.packs) (hm : p.status = .marked t)
+    (hk : p.id ∉ pr.toDelete) : p ∈ s'.packs := by
+  obtain ⟨pr', hpr', _, rfl⟩ := step_pruneRewrite h
+  rw [hpr] at hpr'
+  injection hpr' with e
+  subst e
+  exact List.mem_map.mpr ⟨p, hp, rewritePack_keepMarked hm hk⟩
+
+open Rustic.Prune in
+/-- … and in C02's execution model (`Prune.execute` of `prune_repository`): a pack decided `keepMarked` (or
+`keepMarkedAndCorrect`) that lies in an index file which is rebuilt is written to the marked section of the rebuilt index with its
+old mark time and its COMPLETE blob list (`toIdx` = `into_index_pack`). -/
+theorem kept_marked_entry_is_rewritten_with_its_blobs (typed : Bool) (o : Opts) (d : Decided) (p : PPack) (hp : p ∈ d.packs)
+    (hr : d.rebuild.contains p.index = true) (ht : p.todo = .keepMarked ∨ p.todo = .keepMarkedAndCorrect)
+    (hi : o.instantDelete = false) :
+    toIdx p (some (p.time.getD o.now)) ∈ (execute typed o d).newMarked ∧
+    (toIdx p (some (p.time.getD o.now))).blobs = p.blobs.map blobKey := by
+  refine ⟨?_, rfl⟩
+  have hne : d.rebuild.isEmpty = false := by
+    cases hd : d.rebuild with
+    | nil => rw [hd] at hr; simp at hr
+    | cons a l => rfl
+  unfold execute
+  simp only [hne, hi, Bool.false_eq_true, if_false]
+  apply List.mem_append_right
+  rw [List.mem_filterMap]
+  refine ⟨p, List.mem_filter.mpr ⟨hp, hr⟩, ?_⟩
+  rcases ht with h | h <;> simp [h]
+/-- more generally an index rewrite changes the status of packs only: ids and blob lists of ALL packs are what they were. -/
+theorem every_prune_step_keeps_blob_lists (s s' : St) (j : Nat) (h : step s (.pruneRewrite j) = some s') :
+    s'.packs.map (fun p => (p.id, p.blobs)) = s.packs.map (fun p => (p.id, p.blobs)) := by
+  obtain ⟨pr, _, _, rfl⟩ := step_pruneRewrite h
+  simp only [List.map_map]
+  apply List.map_congr_left
+  intro p _
+  simp
+
+/-- **Two prunes during one backup** (composition of `kept_marked_packs_keep_their_blobs` and
+`needed_marked_pack_recovered_whatever_its_age`): pack `p` was marked by an earlier prune; a second prune rewrites the index and
+keeps it marked; then the backup finishes with a snapshot that needs a key `k` of `p`; the follow-up prune — any time `d`
+later — makes `k` readable.  (That the pack is still stored and not deleted by the second prune while the backup is within the
+hypothesis is `overlap_no_loss`; that this holds for every interleaving and every number of prunes is `next_prune_recovers`.) -/
+theorem backup_over_two_prunes_recovered (s1 s2 s3 : St) (j i : Nat) (pr : Prune) (closure : List Key)
+    (hpr : s1.prunes[j]? = some pr) (h2 : step s1 (.pruneRewrite j) = some s2)
+    (h3 : step s2 (.backupFinish i closure) = some s3)
+    (p : PackSt) (t : Int) (hp : p ∈ s1.packs) (hm : p.status = .marked t) (hst : p.stored = true)
+    (hk : p.id ∉ pr.toDelete) (k : Key) (hb : k ∈ p.blobs) (hc : k ∈ closure) (d : Nat) :
+    visible (followupPrune { s3 with now := s3.now + d }) k = true := by
+  have hp2 := kept_marked_packs_keep_their_blobs s1 s2 j pr hpr h2 p t hp hm hk
+  obtain ⟨b, _, _, _, rfl⟩ := step_backupFinish h3
+  exact (needed_marked_pack_recovered_whatever_its_age
+    { s2 with snaps := closure :: s2.snaps, backups := s2.backups.eraseIdx i, now := s2.now + d } p t closure k hp2 hm hst
+    (List.mem_cons_self ..) hc hb).2
+
+
 /-- (I3) in every reachable state, whatever a running prune is going to remove was marked at `t` with
 `t + keep_delete ≤` its plan time, or has left the index already. -/
 theorem planned_removals_are_old (s0 s : St) (steps : List Step) (h0 : Inv s0) (hr : run s0 steps = some s) :
@@ -136,6 +258,31 @@ theorem writes_are_monotone (r : Repo) (o : Op) (hw : o.isWrite = true) (pid : N
            fun h => by rw [indexed_congr (apply r (.writeSnap _)) r rfl]; exact h⟩
   · exact ⟨id, id⟩
 
+/-! ### the same on the protocol model (where index files exist; this is what the driver's monitor judges) -/
+open Rustic.Repo in
+/-- **index-file level of "kept marked packs keep their blobs"**: a prune's index rewrite = write the rebuilt index file `i`, then
+remove old index files `rm`.  If `i` lists pack `p` — unmarked or MARKED — with key `k` in its blob list and the pack file is stored,
+`k` stays available (can be brought back by the next prune) whatever index files are removed. -/
+theorem rewritten_index_listing_blobs_keeps_available (r : Repo) (i : IndexFile) (p : IdxPack) (k : Key) (rm : List Nat)
+    (hp : p ∈ i.packs ++ i.del) (hk : k ∈ p.blobs) (hs : stored r p.id k = true) (hrm : i.id ∉ rm) :
+    available (applyAll (apply r (.writeIndex i)) (rm.map .removeIndex)) k = true := by
+  have h := removeIndexes_keep rm (apply r (.writeIndex i)) i (by simp [apply]) hrm
+  simp only [available, List.any_eq_true, Bool.and_eq_true, List.contains_iff_mem]
+  refine ⟨i, h.1, p, hp, hk, ?_⟩
+  have e : stored (applyAll (apply r (.writeIndex i)) (rm.map .removeIndex)) p.id k = stored r p.id k := by
+    unfold stored; rw [h.2]; rfl
+  rw [e]; exact hs
+
+open Rustic.Repo in
+/-- … and an entry WITHOUT its blob list loses it (the shape of seeded change C10-7): pack 1 holds `k`, the old index file 7 lists it
+marked with `k`; the rebuilt index 8 lists pack 1 marked but with no blobs; once index 7 is removed `k` is not available any more. -/
+theorem rewrite_dropping_blobs_loses :
+    let k : Key := (.data, 1)
+    let r : Repo := { packs := [{ id := 1, blobs := [k] }], indexes := [{ id := 7, packs := [], del := [{ id := 1, blobs := [k] }] }] }
+    (available r k, available (applyAll r [.writeIndex { id := 8, packs := [], del := [{ id := 1, blobs := [] }] }, .removeIndex 7]) k,
+     available (applyAll r [.writeIndex { id := 8, packs := [], del := [{ id := 1, blobs := [k] }] }, .removeIndex 7]) k)
+      = (true, false, true) := by decide
+
 /-! ### witnesses -/
 
 /-- non-vacuity with `forget` (the `bfp` family of the harness): a backup loads its index and relies on `k1`, the only
@@ -165,6 +312,30 @@ theorem overlap_within_hypothesis_keeps :
     ((run (w0 (some 3600)) [.pruneStart [] [1], .tick 10, .backupStart [k1], .tick 60, .pruneRewrite 0, .pruneEnd 0,
         .tick 3600, .backupFinish 0 [k1]]).map
       (fun s => (noLoss s, s.packs.map (fun p => (p.stored, p.status))))) = some (true, [(true, .marked 0)]) := by
+  decide +kernel
+
+/-- non-vacuity, shape "follow-up later than keep-delete" (harness: `Fp.late_followup`): the history of `forget_two_prunes_keeps`,
+then 25 h pass (the mark of pack 1, time 100, is older than keep-delete = 23 h): the follow-up prune RECOVERS pack 1, the
+snapshot is readable; had the backup not finished (no snapshot needs `k1`), the same prune would have deleted the pack. -/
+theorem late_followup_recovers_old_mark :
+    ((run { w0 (some 3600) with snaps := [[k1]] } [.tick 100, .backupStart [k1], .forget 0, .pruneStart [] [1], .pruneRewrite 0,
+        .pruneEnd 0, .tick 600, .pruneStart [] [], .pruneRewrite 0, .pruneEnd 0, .tick 60, .backupFinish 0 [k1], .tick 90000]).map
+      (fun s => (decide (100 + s.keepDelete ≤ s.now), (followupPrune s).packs.map (fun p => (p.stored, p.status)),
+        allVisible (followupPrune s), (followupPrune { s with snaps := [] }).packs.map (fun p => (p.stored, p.status))))) =
+      some (true, [(true, .unmarked)], true, [(false, .unlisted)]) := by
+  decide +kernel
+
+/-- non-vacuity, shape "backup over two prunes with another backup in between" (harness: `Fp.mid_backup`): backup A relies on
+`k1` (pack 1), the snapshot is forgotten, prune 1 marks pack 1 at 100; backup B writes pack 2 and finishes; prune 2 (10 min
+after prune 1) rewrites the index — pack 1 stays marked at 100 WITH its blob list; A finishes; nothing is lost and the
+follow-up prune, 25 h later, makes both snapshots readable. -/
+theorem two_prunes_with_backup_between_keeps :
+    ((run { w0 (some 3600) with snaps := [[k1]] } twoPrunesBackupBetween).map
+      (fun s => (noLoss s, s.packs.map (fun p => (p.blobs.contains k1, p.stored, p.status))))) =
+      some (true, [(true, true, .marked 100), (false, true, .unmarked)]) ∧
+    ((run { w0 (some 3600) with snaps := [[k1]] } twoPrunesBackupBetween).map
+      (fun s => ((followupPrune s).packs.map (fun p => (p.stored, p.status)), allVisible (followupPrune s)))) =
+      some ([(true, .unmarked), (true, .unmarked)], true) := by
   decide +kernel
 
 end Rustic.Props.C10
